@@ -122,6 +122,10 @@ func c19GenDecl(r *rand.Rand, idx int, errKind string) string {
 		writeDoc(&sb, "", c19RandDoc(r, "converter"), false)
 		sb.WriteString("func " + name + "(a int) string { return \"\" }\n")
 		return sb.String()
+	case "vars-on-func":
+		writeDoc(&sb, "", c19RandDoc(r, "variables"), false)
+		sb.WriteString("func " + name + "(a int) string { return \"\" }\n")
+		return sb.String()
 	case "vars-empty-on-import":
 		writeDoc(&sb, "", c19RandDoc(r, "variables"), false)
 		sb.WriteString("import _ \"strings\"\n")
@@ -277,6 +281,7 @@ var c19ErrClasses = []struct {
 	{`method must have one name`, 6},
 	{`must have one name`, 7},
 	{`expected value spec`, 8},
+	{`may not be defined on a func declaration`, 9},
 }
 
 func c19Class(err error) int {
@@ -309,7 +314,7 @@ func runC19B(cfg runCfg) {
 	root := filepath.Join(cfg.out, "mod")
 	must(os.MkdirAll(root, 0o755))
 	must(os.WriteFile(filepath.Join(root, "go.mod"), []byte("module example.org/c19\n\ngo 1.22\n"), 0o644))
-	errKinds := []string{"vars-on-type", "vars-on-const", "conv-on-var", "conv-on-const", "conv-multiple", "conv-non-iface", "spec-non-iface", "embedded", "two-names", "vars-empty-on-import", "conv-on-func"}
+	errKinds := []string{"vars-on-type", "vars-on-const", "conv-on-var", "conv-on-const", "conv-multiple", "conv-non-iface", "spec-non-iface", "embedded", "two-names", "vars-empty-on-import", "conv-on-func", "vars-on-func"}
 	var pkgs []c19Pkg
 	for i := 0; i < nValid+nErr; i++ {
 		var sb strings.Builder
